@@ -32,6 +32,7 @@ import (
 	"pdverif/internal/kvx14"
 	"pdverif/internal/res"
 	"pdverif/internal/rng"
+	"pdverif/internal/srv14"
 )
 
 type region struct {
@@ -65,18 +66,18 @@ type fault struct {
 	AIdx    int
 }
 type op struct {
-	K      string // tick config layout report store
-	F      fault
-	C      cfg
-	L      []region
-	RID    uint64
-	SID    uint64
-	Int    bool
-	StID   uint64
-	Down   bool
-	Dt     int64  // advance: ms
-	Member uint64 // member: PD member id
-	LoadFail bool // restart: the read of the persisted status fails
+	K        string // tick config layout report store
+	F        fault
+	C        cfg
+	L        []region
+	RID      uint64
+	SID      uint64
+	Int      bool
+	StID     uint64
+	Down     bool
+	Dt       int64  // advance: ms
+	Member   uint64 // member: PD member id
+	LoadFail bool   // restart: the read of the persisted status fails
 }
 type boot struct {
 	C       cfg
@@ -639,6 +640,30 @@ func (c caseRec) coq() string {
 	return "(" + c.In.Boot.coq() + ",\n  " + coqfmt.List(ops) + ",\n  " + coqfmt.List(c.Obs) + ")"
 }
 
+// scriptedCases: histories the random generator reaches too rarely
+func scriptedCases() []caseIn {
+	stores := []store{{ID: 1, DC: "Primary"}, {ID: 2, DC: "Primary"}, {ID: 3, DC: "Primary"}, {ID: 4, DC: "Dr"}, {ID: 5, DC: "Dr"},
+		{ID: 6, DC: "Other", Down: true}, {ID: 7, DC: "Primary", Tomb: true}}
+	good := func(sid uint64) []region {
+		return []region{{ID: 51, Start: "", End: "h", SID: sid, Int: true}, {ID: 52, Start: "h", End: "p", SID: sid, Int: true}, {ID: 53, Start: "p", End: "", SID: sid, Int: true}}
+	}
+	var out []caseIn
+	// the scan completes and the switch to sync of that very tick fails to persist (by a failing save / a failing AllocID); before the
+	// next tick a DR store fails: that tick has to go to async and must not declare sync from the finished cursor
+	for _, f := range []fault{{Save: true, Idx: 1, Kind: 0}, {Save: true, Idx: 1, Kind: 1}, {Alloc: true, AIdx: 1}} {
+		for _, timeout := range []int64{0, 65000} {
+			ops := []op{{K: "tick", F: f}, {K: "store", StID: 4, Down: true}}
+			if timeout != 0 {
+				ops = append(ops, op{K: "advance", Dt: 70000})
+			}
+			ops = append(ops, op{K: "tick"}, op{K: "tick"}, op{K: "store", StID: 4, Down: false}, op{K: "tick"}, op{K: "tick"})
+			out = append(out, caseIn{Boot: boot{C: cfg{DR: true, Label: "zone", P: 2, D: 1, Timeout: timeout}, St: &status{State: "Async", ID: 5}, ID0: 10,
+				Regions: good(10), Stores: stores, Batch: 1024}, Ops: ops})
+		}
+	}
+	return out
+}
+
 func genBoot(r *rng.R) boot {
 	b := boot{C: cfg{DR: r.Pct(85), Label: "zone", P: 1 + r.Intn(3), D: 1 + r.Intn(2), Timeout: []int64{0, 0, 65000, 65000, 125000}[r.Intn(5)]}, ID0: uint64(10 + r.Intn(5)),
 		Batch: []int{1, 2, 3, 4, 1024}[r.Intn(5)]}
@@ -664,8 +689,142 @@ func genBoot(r *rng.R) boot {
 	return b
 }
 
+// ---------- the Server-level entry point: Server.SetReplicationModeConfig on a real bootstrapped server ----------
+type sstepRec struct {
+	Mode, Label       string
+	Fault             string // "" | config#i:before|after | mode#i:before|after
+	Res               string
+	Before, After     string
+	CfgUnk, StatusUnk bool
+}
+type serverCaseRec struct {
+	Via   string
+	Steps []sstepRec
+}
+
+func runServerClass(seed uint64, ncases int, R *res.Result) ([]serverCaseRec, []string) {
+	x, err := srv14.Start(func(c *config.Config) { c.LeaderLease = 60 })
+	if err != nil {
+		panic(err)
+	}
+	defer x.Close()
+	if err := x.Bootstrap(&metapb.Store{Id: 1, Address: "boot", Version: "4.0.0"}); err != nil {
+		panic(err)
+	}
+	s := x.S
+	st := s.GetStorage()
+	kb := kvx14.Wrap(st.Base, func(k string) (string, bool) {
+		switch {
+		case k == "config":
+			return "config", true
+		case strings.HasPrefix(k, "replication_mode/"):
+			return "mode", true
+		}
+		return "", false
+	})
+	st.Base = kb
+	optStatusOf := func(state string, id uint64) string {
+		if state == "" {
+			return "None"
+		}
+		return optStatus(&status{stateName(state), id})
+	}
+	snap := func() string {
+		h := s.GetRaftCluster().GetReplicationMode().GetReplicationStatusHTTP()
+		served := "None"
+		if h.Mode == "dr-auto-sync" {
+			served = optStatusOf(h.DrAutoSync.State, h.DrAutoSync.StateID)
+		}
+		var raw struct {
+			State   string `json:"state"`
+			StateID uint64 `json:"state_id"`
+		}
+		stored := "None"
+		if ok, err := core.NewStorage(kb).LoadReplicationStatus("dr-auto-sync", &raw); err != nil {
+			panic(err)
+		} else if ok {
+			stored = optStatusOf(raw.State, raw.StateID)
+		}
+		c := s.GetReplicationModeConfig()
+		fresh := config.NewConfig()
+		if err := fresh.Adjust(nil, false); err != nil {
+			panic(err)
+		}
+		o := config.NewPersistOptions(fresh)
+		if err := o.Reload(core.NewStorage(kb)); err != nil {
+			panic(err)
+		}
+		rc := o.GetReplicationModeConfig()
+		return fmt.Sprintf("(SObs %s %s %s %s %s %s %s %s)", qs(h.Mode), qs(h.DrAutoSync.LabelKey), served, stored,
+			qs(c.ReplicationMode), qs(c.DRAutoSync.LabelKey), qs(rc.ReplicationMode), qs(rc.DRAutoSync.LabelKey))
+	}
+	call := func(mode, label, flt string) sstepRec {
+		rec := sstepRec{Mode: mode, Label: label, Fault: flt}
+		cfg := *s.GetReplicationModeConfig()
+		cfg.ReplicationMode = mode
+		cfg.DRAutoSync.LabelKey = label
+		cfg.DRAutoSync.Primary, cfg.DRAutoSync.DR = "z1", "z2"
+		cfg.DRAutoSync.PrimaryReplicas, cfg.DRAutoSync.DRReplicas = 2, 1
+		plan := map[string]kvx14.Kind{}
+		if flt != "" {
+			var g, k string
+			var i int
+			fmt.Sscanf(strings.NewReplacer("#", " ", ":", " ").Replace(flt), "%s %d %s", &g, &i, &k)
+			kind := kvx14.FailBefore
+			if k == "after" {
+				kind = kvx14.FailAfter
+				rec.CfgUnk, rec.StatusUnk = g == "config", g == "mode"
+			}
+			plan[kvx14.PlanKey(g, i)] = kind
+		}
+		rec.Before = snap()
+		kb.Arm(plan)
+		err := s.SetReplicationModeConfig(cfg)
+		kb.Arm(nil)
+		rec.Res = "ROk"
+		if err != nil {
+			rec.Res = "RErr"
+		}
+		rec.After = snap()
+		R.Count("server-set-mode:" + rec.Res + ":" + map[bool]string{true: "faulted", false: "no-fault"}[flt != ""])
+		return rec
+	}
+	faults := []string{"config#0:before", "config#0:after", "mode#0:before", "mode#0:after", "config#1:before"}
+	var cases []serverCaseRec
+	var texts []string
+	master := rng.New(seed ^ 0x5e7c19)
+	for k := 0; k < ncases; k++ {
+		r := master.Fork(uint64(k))
+		c := serverCaseRec{Via: "server-set-mode"}
+		c.Steps = append(c.Steps, call("majority", "", "")) // every case starts from majority
+		if k < len(faults) {
+			// scripted: an online switch to dr-auto-sync and a label-key change, each with every single failing write
+			f := faults[k]
+			c.Steps = append(c.Steps, call("dr-auto-sync", "zone", f), call("dr-auto-sync", "zone", ""), call("dr-auto-sync", "dc", f), call("dr-auto-sync", "dc", ""),
+				call("majority", "", f), call("majority", "", ""))
+		} else {
+			for i := 0; i < 8+r.Intn(6); i++ {
+				f := ""
+				if r.Pct(45) {
+					f = faults[r.Intn(len(faults))]
+				}
+				mode := []string{"majority", "dr-auto-sync", "dr-auto-sync", "bogus"}[r.Pick(25, 35, 35, 5)]
+				c.Steps = append(c.Steps, call(mode, []string{"zone", "dc", ""}[r.Intn(3)], f))
+			}
+		}
+		xs := make([]string, len(c.Steps))
+		for i, st := range c.Steps {
+			xs[i] = fmt.Sprintf("(%s, %s, %s,\n    %s,\n    %s)", st.Res, coqfmt.Bool(st.CfgUnk), coqfmt.Bool(st.StatusUnk), st.Before, st.After)
+		}
+		cases = append(cases, c)
+		texts = append(texts, coqfmt.List(xs))
+	}
+	return cases, texts
+}
+
 func main() {
 	seed := flag.Uint64("seed", 1, "")
+	nserver := flag.Int("server", 8, "number of Server.SetReplicationModeConfig histories on a real server with a faulty storage")
 	n := flag.Int("n", 400, "number of generated cases")
 	out := flag.String("out", ".", "output directory")
 	tier := flag.String("tier", "quick", "")
@@ -706,6 +865,9 @@ func main() {
 			l = []caseIn{ev.Replay.In}
 		}
 		fixed = append(fixed, l...)
+	}
+	if *replay == "" {
+		fixed = append(fixed, scriptedCases()...)
 	}
 	var all []caseRec
 	emit := func(c caseRec) {
@@ -769,8 +931,31 @@ func main() {
 		panic(err)
 	}
 	R.CaseFiles = cf.Files
+	var raw []interface{}
+	for _, c := range all {
+		raw = append(raw, c)
+	}
+	if *replay == "" && *nserver > 0 {
+		for len(raw)%cf.PerFile != 0 {
+			raw = append(raw, nil)
+		}
+		sf := &coqfmt.CaseFile{Dir: *out, Prefix: "C19s", PerFile: cf.PerFile, Header: cf.Header, Type: "scase",
+			Footer: "Definition M := Eval vm_compute in (@nil nat).\nDefinition D := Eval vm_compute in (@nil nat).\nDefinition V := Eval vm_compute in monitor_s_fails cases.\nPrint M. Print D. Print V.\n"}
+		cases, texts := runServerClass(*seed, *nserver, R)
+		for i, txt := range texts {
+			R.Case(txt, true)
+			if err := sf.Add(txt); err != nil {
+				panic(err)
+			}
+			raw = append(raw, cases[i])
+		}
+		if err := sf.Flush(); err != nil {
+			panic(err)
+		}
+		R.CaseFiles = append(R.CaseFiles, sf.Files...)
+	}
 	sort.Strings(R.Notes)
-	b, _ := json.Marshal(all)
+	b, _ := json.Marshal(raw)
 	os.WriteFile(path.Join(*out, "cases.json"), b, 0o644)
 	if err := R.Write(path.Join(*out, "result.json")); err != nil {
 		panic(err)
